@@ -10,7 +10,7 @@ COMPONENTS = {
     ],
     "simulated": [
         "clock (testing/synctest bubble clock)", "crypto/rand (testing/cryptotest, seeded per run)",
-        "network (SimNet: net.Pipe behind http.DefaultTransport.DialContext)",
+        "network (SimNet: net.Pipe behind http.DefaultTransport.DialContext; nodes served over TLS wrap the pipe in crypto/tls with certificates of a simulated CA - the client side is the product's own transport and trust configuration)",
         "identity provider (FakeIdP: OIDC + plain OAuth2 personalities)", "upstreams (FakeUpstream)",
         "Redis server (miniredis v2, third-party emulator with real Lua) behind the real go-redis client",
         "browser (cookie jar per RFC 6265 subset, raw HTTP/1.1 text parsed by http.ReadRequest)",
@@ -20,7 +20,7 @@ COMPONENTS = {
 }
 
 COMMON_ASSUMPTIONS = [
-    "simulator compiles the working tree with go1.26.8 (product pins go1.23.7); GODEBUG defaults follow go.mod",
+    "simulator compiles the working tree with go1.26.8 (product pins go1.23.7); GODEBUG defaults follow go.mod, except cryptocustomrand=0 (crypto APIs that are handed an explicit random source read the seeded global one; needed for replayable TLS handshakes)",
     "miniredis stands in for Redis; FakeIdP is a spec-following OIDC provider that keeps the nonce in refreshed ID tokens",
     "between two seam events a task touches only request-local state (controlled-schedule runs)",
     "a clean batch is evidence, not proof: seeded search samples schedules, fault sequences and workloads",
@@ -62,7 +62,7 @@ PROPS["C14"] = {
     "level": "fault_enumeration",
     "quick_runs": 240, "quick_budget_s": 150, "thorough_budget_s": 600,
     "rule": "one run = one sampled world (store, provider personality incl. the Keycloak flavour with JWT access tokens and 11 wrongly typed role-claim kinds, PKCE, refresh-token rotation, signing-key rotation) + one flow "
-            "{login, login with profile lookup, bearer request, refresh, refresh with profile lookup, plain-OAuth2 login, plain re-validation, login / refresh through the Google provider, back-channel logout, login through the Azure AD provider with a Graph-style profile document (mail / otherMails / userPrincipalName, +7 wrongly typed documents), login through the login.gov provider (private_key_jwt client, key set fetched at every login)} (profile flows: the "
+            "{login, login with profile lookup, bearer request, refresh, refresh with profile lookup, plain-OAuth2 login, plain re-validation, login / refresh through the Google provider, back-channel logout, login through the Azure AD provider with a Graph-style profile document (mail / otherMails / userPrincipalName, +7 wrongly typed documents), login through the login.gov provider (private_key_jwt client, key set fetched at every login), login through the Microsoft Entra ID provider over TLS with group overage answered by two pages of a simulated Microsoft Graph (+11 Graph document kinds)} (a fifth of the worlds reach the provider over TLS: CA file / CA file next to an unrelated one / verification switched off; +6 connection-level kinds per position: certificate for another host, expired, not yet valid, untrusted CA, no handshake, plain HTTP on the TLS port) (profile flows: the "
             "ID token lacks a drawn non-empty subset of email / email_verified / groups / preferred_username); the flow's IdP-call sequence is "
             "recorded fault-free, then re-executed once for EVERY position x EVERY applicable response kind (11 transport kinds, 64 Byzantine token "
             "responses incl. every subset of its five members omitted, 3 JWKS contents, 7 profile contents), each persistent and transient, each with a fresh browser, followed by a follow-up request and a final honest flow; "
@@ -126,7 +126,7 @@ PROPS["C03"] = {
 PROPS["C05"] = {
     "level": "exploration",
     "quick_runs": 1200, "quick_budget_s": 150, "thorough_budget_s": 600,
-    "rule": "one run = one world (code-challenge method none/S256/plain x skip-nonce x csrf-per-request x encode-state x store; a quarter of the worlds loaded through the alpha-config channel: flags -> the product's own converter -> YAML -> merge) + in 30% of the runs a code-injection race (login B presents login A's code while A's callback is in flight, every IdP call interleaved by the tape: a session needs a token request of its own with its own verifier, one code never yields two sessions) + 2-5 sequential and overlapping logins "
+    "rule": "(12% of the worlds: Microsoft Entra ID flavour of the provider reached over TLS on the simulated network, single tenant, with / without an allowed-tenants list; IdP behaviour 'absent-but-in-profile': no nonce in the ID token, the unsigned profile document mirrors it - must be refused) one run = one world (code-challenge method none/S256/plain x skip-nonce x csrf-per-request x encode-state x store; a quarter of the worlds loaded through the alpha-config channel: flags -> the product's own converter -> YAML -> merge) + in 30% of the runs a code-injection race (login B presents login A's code while A's callback is in flight, every IdP call interleaved by the tape: a session needs a token request of its own with its own verifier, one code never yields two sessions) + 2-5 sequential and overlapping logins "
             "in one browser, each completed under a seeded IdP nonce behaviour {honest, another login's nonce, empty, absent, unhashed-looking, the raw nonce, replay of an "
             "earlier ID token, hash of the state nonce}; the FakeIdP checks code_verifier against the challenge recorded for that code (RFC 7636, independent implementation); "
             "oracles: session => honest nonce (checking on); every authorization request has challenge+method, challenge derived from the login's verifier, verifier 43-128 "
@@ -139,7 +139,7 @@ PROPS["C05"] = {
 PROPS["C04"] = {
     "level": "exploration",
     "quick_runs": 800, "quick_budget_s": 150, "thorough_budget_s": 600,
-    "rule": "(12% of the runs: 2-3 users whose ID tokens lack a drawn subset of e-mail / groups / user name log in and later refresh CONCURRENTLY on 1-2 replicas, every identity-provider call incl. the profile lookups interleaved by the tape; every session must carry its own user's profile values. Served bearer tokens are presented again 2 s after their expiry (20-second tokens) and, in half of the runs, days later: never served.) one run = one world (keys via discovery / static JWKS URL / public-key file, audience claim aud, azp or the lists aud,azp / azp,aud (the first claim present decides), extra audience, an extra JWT issuer with its own key and audience, e-mail claim, groups claim, "
+    "rule": "(9% of the runs: Entra ID scenario over TLS - single-tenant and multi-tenant ('common' issuer + skipped issuer verification) applications x allowed-tenant lists {none, a, b+a, b} x 18 issuer variants at the login callback and in refresh answers; the model is the documented template https://login.microsoftonline.com/<tenant>/v2.0 + the list) (12% of the runs: 2-3 users whose ID tokens lack a drawn subset of e-mail / groups / user name log in and later refresh CONCURRENTLY on 1-2 replicas, every identity-provider call incl. the profile lookups interleaved by the tape; every session must carry its own user's profile values. Served bearer tokens are presented again 2 s after their expiry (20-second tokens) and, in half of the runs, days later: never served.) one run = one world (keys via discovery / static JWKS URL / public-key file, audience claim aud, azp or the lists aud,azp / azp,aud (the first claim present decides), extra audience, an extra JWT issuer with its own key and audience, e-mail claim, groups claim, "
             "allow-unverified-email, store) + 12-23 ID tokens minted by a Byzantine FakeIdP from orthogonal knobs (signing key: right / second published / foreign / "
             "alg none / HS256 keyed with the public key / foreign key under a published kid; iss: right / other / suffix / prefix / case; audience: client / list with / "
             "extra / list without / other / prefix / number / absent; exp: future / past / just past / boundary; email_verified: true / absent / false / string; claim "
@@ -254,7 +254,7 @@ PROPS["C07"] = {
 PROPS["C17"] = {
     "level": "exploration",
     "quick_runs": 500, "quick_budget_s": 150, "thorough_budget_s": 600,
-    "rule": "(a tenth of the runs: FRONT scenario - the product's own server object from pkg/http listens on the simulated network through the guarded listener seam; a raw HTTP/1.1 client sends 3-6 authenticated / anonymous POSTs whose head arrives at once or in two halves 2 s - 70 s apart and whose body of 0 - 200 kB arrives in 1-6 pieces over 0 s - 10 min of simulated time; oracle: the upstream receives the client's body complete and unchanged however long the upload takes, the client receives the upstream's answer, anonymous requests never reach the upstream.) one run = one world (1-10 upstream rules from: catch-all, nested prefixes /api/ and /api/v2/, sibling /apix/, exact path, an exact path below a prefix upstream (requests with and without trailing slash), base path, four rewrite rules with capture "
+    "rule": "(a sixth of the worlds: upstreams reached over TLS on the simulated network - verified against the simulated CA through the provider CA file, or verification switched off per upstream; at the end an impostor answers under the first upstream's name with a certificate for another host / expired / not yet valid / of an unknown CA: with verification on nothing may be delivered to it) (a tenth of the runs: FRONT scenario - the product's own server object from pkg/http listens on the simulated network through the guarded listener seam; a raw HTTP/1.1 client sends 3-6 authenticated / anonymous POSTs whose head arrives at once or in two halves 2 s - 70 s apart and whose body of 0 - 200 kB arrives in 1-6 pieces over 0 s - 10 min of simulated time; oracle: the upstream receives the client's body complete and unchanged however long the upload takes, the client receives the upstream's answer, anonymous requests never reach the upstream.) one run = one world (1-10 upstream rules from: catch-all, nested prefixes /api/ and /api/v2/, sibling /apix/, exact path, an exact path below a prefix upstream (requests with and without trailing slash), base path, four rewrite rules with capture "
             "groups incl. a longer overlapping pattern, a group swap and a target with a query of its own, a static upstream, two file:// upstreams (prefix and rewrite) over a small directory tree with a marker file outside it; pass-host-header per rule; raw-path proxying on/off; four FakeUpstream hosts) + a real login "
             "+ 40-79 authenticated requests: 24 prefixes (10 of them with an encoded slash or letter right at a prefix boundary) x 0-3 segments from an alphabet with %2F, %2e, %20, +, ;, %-encoded and raw UTF-8, %3F, %25 x 14 queries (two re-using the rule's parameter names) x 9 methods x 0-5 "
             "headers (repeated, lower-case, unusual names, empty values, hop-by-hop) x bodies 0 B - 1 MiB fixed or chunked with seeded chunk sizes; the upstream answers with a seeded "
